@@ -168,7 +168,7 @@ func (w *World) Violate(oracle, class, detail string) {
 	}
 	w.Violations = append(w.Violations, Violation{Oracle: oracle, Class: class, Detail: detail, AtUs: w.Now().Microseconds(), Step: w.Steps})
 	w.mu.Unlock()
-	w.logf("VIOLATION %s %s %s", oracle, class, detail)
+	w.logf("VIOLATION %s %s", oracle, class)
 }
 
 func (w *World) enabled(now time.Duration) []Action {
